@@ -472,6 +472,12 @@ def judge_c08(ctx, idx, op, impl, mi, ms, reason):
 
 def cli_model_input(line, impl_answer):
     """the model replays the trace the implementation produced (second phase of the client checks)"""
+    if line.startswith("clim "):
+        t = line.split(" ")
+        m = re.match(r"trace=(\S+) res=(\S+) stopped=(\S+)$", impl_answer)
+        if not m:
+            return "ctracem - -"
+        return "ctracem %s %s" % (m.group(1), t[2])
     if not line.startswith("cli "):
         return line
     t = line.split(" ")
@@ -570,7 +576,54 @@ def cli_written_check(ctx, idx, op, m):
     return []
 
 
+def judge_clim(ctx, idx, op, impl, mi, ms, reason):
+    """one client object, several connections: trace conformance with `Dia.Cm`, and C11 / C12 evaluated on what the
+    implementation itself reported"""
+    f = []
+    m = re.match(r"trace=(\S+) res=(\S+) stopped=(\S+)$", impl)
+    if not m:
+        return [Finding("property", idx, "the multi-connection client scenario did not complete (%s)" % impl[:60], expected="trace=.. res=..", observed=impl[:200], name="C12_multi_stopped")]
+    trace = [] if m.group(1) == "-" else m.group(1).split(",")
+    res = [] if m.group(2) == "-" else m.group(2).split(",")
+    stopped = m.group(3)
+    ctx.count("multi_scenarios")
+    for e in trace:
+        ctx.count("mev_" + e.split(":")[0].split("@")[0])
+    if mi.startswith("reject"):
+        f.append(Finding("correspondence", idx, "the observed event trace is not a run of the multi-connection client model: " + mi, expected="accept", observed=mi, name="Cm.step <-> connect / send_message / handle on several connections of one client (trace conformance)"))
+    else:
+        pred = mi.split(" ")[1]
+        obs = ",".join(res) if res else "-"
+        pl, ol = pred.split(","), obs.split(",")
+        if len(pl) != len(ol) or any(a != b and b != "none" for a, b in zip(pl, ol)):
+            f.append(Finding("correspondence", idx, "future values differ from what the multi-connection model predicts for the observed trace", expected=pred, observed=obs, name="Cm.step <-> connect / send_message / handle on several connections of one client (outcome)"))
+    regs = [e.split(":")[1] for e in trace if e.startswith("reg:")]
+    answers = [a for part in op[2].split(";") for a in part.split(",") if a and a != "-"]
+    any_stopped = "1" in stopped
+    seen = set()
+    for w, rv in enumerate(res):
+        if rv.startswith("got:"):
+            _, h, uid = rv.split(":")
+            ctx.count("multi_future_got")
+            if w < len(regs) and regs[w] != h:
+                f.append(Finding("property", idx, "future of the request with hop-by-hop id %s completed with an answer carrying id %s" % (regs[w], h), expected="got:%s:*" % regs[w], observed=rv, name="C11_multi_safety"))
+            if "%s:%s" % (h, uid) not in answers:
+                f.append(Finding("property", idx, "a future received a message no peer sent (%s)" % rv, expected="one of " + ",".join(answers), observed=rv, name="C11_multi_safety"))
+            if uid in seen:
+                f.append(Finding("property", idx, "one answer was delivered to more than one future (%s)" % rv, expected="at most once", observed=",".join(res), name="C11_multi_one_deliverer"))
+            seen.add(uid)
+        elif rv == "pending":
+            ctx.count("multi_future_pending")
+            if any_stopped:
+                f.append(Finding("property", idx, "a response future is still pending although the reader of one of the client's connections has stopped (the table is closed: nobody can complete it any more)", expected="err or answer", observed=",".join(res) + " stopped=" + stopped, name="C12_multi_stopped"))
+        elif rv == "err":
+            ctx.count("multi_future_err")
+    return f
+
+
 def judge_cli(ctx, idx, op, impl, mi, ms, reason):
+    if op[0] == "clim":
+        return judge_clim(ctx, idx, op, impl, mi, ms, reason)
     if op[0] == "cliswitch":
         # two connections on one client object; the first one's reader stops with a request outstanding
         ctx.count("switch_scenarios")
@@ -963,8 +1016,8 @@ PROPS = {
     "C09": dict(family="c09", judge=judge_c08, probes=("serve",), expect_keys=["serve_readcut", "serve_writecut"], title="Server survives connection loss at any byte offset"),
     "C10": dict(family="c10", judge=judge_c10, probes=("lsn",), title="One misbehaving connection cannot disturb the others"),
     "C13": dict(family="c13", judge=judge_c13, probes=("tls", "tlsq", "tlsrude"), title="TLS settings are honoured exactly"),
-    "C11": dict(family="c11", judge=judge_cli, probes=("cli", "ctcp"), model_input=cli_model_input, title="Client delivers each answer to the request it belongs to"),
-    "C12": dict(family="c12", judge=judge_cli, probes=("cli", "ctcp", "cliswitch"), expect_keys=["ev_stop", "ev_refused", "ev_rm", "ev_dl", "future_err", "future_got", "future_pending", "late_err", "tcp_scenarios"], model_input=cli_model_input, title="Every response future eventually completes"),
+    "C11": dict(family="c11", judge=judge_cli, probes=("cli", "ctcp", "clim"), model_input=cli_model_input, title="Client delivers each answer to the request it belongs to"),
+    "C12": dict(family="c12", judge=judge_cli, probes=("cli", "ctcp", "cliswitch", "clim"), expect_keys=["ev_stop", "ev_refused", "ev_rm", "ev_dl", "future_err", "future_got", "future_pending", "late_err", "tcp_scenarios"], model_input=cli_model_input, title="Every response future eventually completes"),
     "C14": dict(family="c14", judge=judge_c14, probes=("dget", "dbyname", "dapp", "dcmd"), title="Dictionary lookups reflect exactly what was loaded, latest wins"),
     "C15": dict(family="c15", extra=shipped_defs, judge=judge_c15, probes=("dec", "dget", "dbyname", "rt"), title="AVPs are typed by their exact dictionary entry or rejected"),
     "C16": dict(family="c16", extra=shipped_defs, judge=judge_c16, probes=("add_by_name", "avp_name", "enc", "dump", "len"), title="Building an AVP by name follows the dictionary; failure changes nothing"),
